@@ -255,6 +255,13 @@ class Check:
                 self.failing_case(case, r, 'disagree: ' + detail)
             elif st == 'inconclusive':
                 self.inconclusive[detail[:60]] += 1
+            # a law evaluated inside JSONata must be true (spec-level predicate on the implementation)
+            if 'law' in case.get('tags', []) and r.get('compile', 'ok') == 'ok':
+                self.stats['laws_checked'] += 1
+                if r.get('impl', '').startswith('V ') and r['impl'] != 'V T':
+                    self.failing_case(case, r, 'direct:law: the law evaluates to %s instead of true' % r['impl'][:80])
+                elif r.get('impl', '')[:1] in ('U', 'E') and 'law-total' in case.get('tags', []):
+                    self.failing_case(case, r, 'direct:law: the law does not evaluate (%s)' % r['impl'][:80])
             for k, v in direct_failures(r).items():
                 if k in owner_direct:
                     self.failing_case(case, r, 'direct:%s: %s' % (k, v))
